@@ -1,0 +1,32 @@
+//go:build verif
+
+// Package verifhook provides named observation points for the external
+// verification harness.  It is compiled in only with the "verif" build tag;
+// without the tag At is an empty function that the compiler removes.
+package verifhook
+
+import "sync/atomic"
+
+type hookFn func(point string, kv ...any)
+
+var h atomic.Pointer[hookFn]
+
+const Enabled = true
+
+// Set installs (or, with nil, removes) the hook function.
+func Set(f func(point string, kv ...any)) {
+	if f == nil {
+		h.Store(nil)
+		return
+	}
+	fn := hookFn(f)
+	h.Store(&fn)
+}
+
+// At reports that execution reached the named point. The installed hook may
+// log the event or block the calling goroutine (scheduler gate).
+func At(point string, kv ...any) {
+	if f := h.Load(); f != nil {
+		(*f)(point, kv...)
+	}
+}
